@@ -1,6 +1,6 @@
 CONSTANTS
   Routers = {"r1", "r2"}
-  Clusters = {"c1", "c2"}
+  Clusters = {"c1", "c2", "c12", "g/c1"}
   Hosts = {"h1", "h2", "h3"}
   Listeners = {"l1"}
   MaxOps = 0
@@ -12,6 +12,8 @@ CONSTANTS
   HostSets = {}
   Attrs = {"a1", "a2"}
   LocLists = {}
+  CModes = {}
+  RModes = {}
   Defects = {}
 SPECIFICATION TraceSpec
 POSTCONDITION Accepted
